@@ -30,6 +30,9 @@ SPEC_PATH = os.path.join(HERE, "primitive_specs.json")
 # property -> [(unit, what the property needs from it)]
 PRIMITIVES = {
     "C01": [
+        ("lbry.blob.blob_manager.BlobManager.get_blob", "ONE blob object per hash (all writers of a blob meet on it); a buffer is migrated to a file object with its verified bytes"),
+        ("lbry.blob.blob_manager.BlobManager._get_blob", "which kind of blob object is built"),
+        ("lbry.blob.blob_manager.BlobManager.is_blob_verified", "verified status as seen by the manager"),
         ("lbry.blob.blob_file.BlobBuffer._write_blob", "in-memory write"),
         ("lbry.blob.blob_file.BlobBuffer._reader_context", "in-memory read requires a readable blob"),
         ("lbry.blob.blob_file.BlobFile._reader_context", "file read"),
@@ -118,6 +121,9 @@ PRIMITIVES = {
         ("lbry.wallet.transaction.TXORef.hash", "outpoint hash"),
     ],
     "C06": [
+        ("lbry.wallet.mnemonic.normalize_text", "mnemonic normal form: NFKD, lower case, no combining marks, single spaces, no spaces between CJK characters"),
+        ("lbry.wallet.bip32.PublicKey.pubkey_bytes", "33-byte compressed public key"),
+        ("lbry.wallet.bip32.PrivateKey.public_key", "public key of a private key, linked to the parent's public key"),
         ("module*:lbry.crypto.hash", "hash primitives"),
         ("module*:lbry.crypto.util", "integer ↔ bytes"),
         ("lbry.crypto.base58.Base58.char_value", "digit value of a Base58 character"),
